@@ -121,7 +121,9 @@ JudgeC15(t) ==
     {<<"C15", "spelling-changes-effect", t.canon.steps[i].a.a>> :
         i \in {i \in 1..Len(t.canon.steps) : t.canon.steps[i].svc # t.spelled.steps[i].svc \/ t.canon.steps[i].out # t.spelled.steps[i].out}}
 
-JudgeAll(t) == UNION {JudgeStep(t.canon, i) : i \in 1..Len(t.canon.steps)} \cup JudgeEnd(t.canon) \cup JudgeC18(t.canon) \cup JudgeC15(t)
+\* both runs are judged with every formula: the users of a hub pass SKIs in whatever spelling their labels and files have
+JudgeRun(run) == UNION {JudgeStep(run, i) : i \in 1..Len(run.steps)} \cup JudgeEnd(run) \cup JudgeC18(run)
+JudgeAll(t) == JudgeRun(t.canon) \cup JudgeRun(t.spelled) \cup JudgeC15(t)
 
 Init == l = 0
 Next == /\ l < Len(Trace)
